@@ -43,7 +43,9 @@ fn fwd(op: &Op, _ctx: &dyn Context, operands: &mut dyn CoordinateSet) -> usize {
             let (sin_lon, cos_lon) = (lon - lon_0).sin_cos();
 
             let q = ancillary::qs(lat.sin(), e);
-            let rho = a * (qp + sign * q).sqrt();
+            // At the pole itself, rounding leaves a residue of either sign in qp -+ q
+            let q = qp + sign * q;
+            let rho = if q >= 1e-15 { a * q.sqrt() } else { 0.0 };
 
             let easting = x_0 + rho * sin_lon;
             let northing = y_0 + sign * rho * cos_lon;
